@@ -58,6 +58,9 @@ func registerAll() {
 	builds["rpc"] = &build{name: "rpc", pkg: modPath + "/pkg/rpc", harness: rpcHarness,
 		extra:    map[string]string{"internal/vkgo/pkg/semaphore/zz_verif_peek.go": "harness/semaccess/zz_verif_peek.go"},
 		patterns: []string{"./pkg/rpc", "./internal/vkgo/pkg/semaphore"}, rules: rpcRules}
+	builds["rpc-race"] = &build{name: "rpc-race", pkg: modPath + "/pkg/rpc", harness: rpcHarness, race: true,
+		extra:    map[string]string{"internal/vkgo/pkg/semaphore/zz_verif_peek.go": "harness/semaccess/zz_verif_peek.go"},
+		patterns: []string{"./pkg/rpc"}, rules: instrument.Rules{Dial: true, Rand: true}}
 	rpcComponents := map[string]string{
 		"PacketConn framing, crypto reader/writer, nonce/handshake exchange, ping/pong": "real code (source-rewritten at build time)",
 		"ClientImpl/clientConn, Server (accept, handshake, receive/send loops, worker pool, memory semaphores, shutdown), semaphore.Weighted": "real code (source-rewritten at build time)",
@@ -86,6 +89,7 @@ func registerAll() {
 		configs: []config{
 			{name: "calls-faultfree", build: "rpc", params: map[string]any{"kind": "calls", "focus": "C38", "faults": "none"}, quick: tierCfg{wallSec: 15, detPct: 3}, thorough: tierCfg{wallSec: 600, detPct: 1}},
 			{name: "calls-faults", build: "rpc", params: map[string]any{"kind": "calls", "focus": "C38"}, quick: tierCfg{wallSec: 30, detPct: 3}, thorough: tierCfg{wallSec: 1500, detPct: 1}},
+			{name: "rpc-race", build: "rpc-race", params: map[string]any{"kind": "calls", "focus": "C38", "race": true}, quick: tierCfg{wallSec: 15}, thorough: tierCfg{wallSec: 600}},
 		},
 		rule: "each evaluation is one simulated run: 1..2 real rpc.Server and 1..3 real rpc.Client over the simulated network (tcp4 loopback / tcp4 non-loopback = AES required / unix; forced encryption on/off; protocol 0..2; connection buffers 1..2048), 1..16 concurrent calls (Do and DoCallback; TL1/TL2; actor id; seeded request/response extras; handlers echo / rpc error / plain error / panic / gated by the simulator; context deadlines, custom timeouts, caller cancellation at a seeded step, FailIfNoConnection), each carrying a unique token; faults: connection reset, stall (ping/pong and timeouts), dial refusal, Server.Shutdown/Close and Client.Close at seeded simulated times with calls in flight; per-run knobs: stream segmentation, short reads, socket capacity (write blocking), sync.Pool policy, map order, Cond wake order, scheduler strategy, clock-advance probability. Oracle per completed call and bounded-liveness/wind-down oracle at the end (see DESIGN §3.3). Non-trivial = a contended scheduling decision happened and at least one call completed; distinct = distinct schedule+fault signature.",
 		assumptions: callsAssume, components: rpcComponents,
